@@ -1488,19 +1488,6 @@ def _needs_parentheses(template: str, slot: str, code: str) -> bool:
 
 def format_template(source: str, template_match: NamedTuple, **callables) -> str:
     template_match_asdict = template_match._asdict() if hasattr(template_match, "_asdict") else {}
-    for name, value in template_match_asdict.items():
-        slot = "{{" + name + "}}"
-        code = unparse(value)
-        if slot in source and isinstance(value, ast.expr) and _needs_parentheses(source, slot, code):
-            code = f"({code})"
-
-        source = source.replace(slot, code)
-
-    # It's ok that some of the template_match isn't used, just like str.format()
-    # may not use all of the arguments.
-
-    if unfilled_wildcards := re.findall(r"\{\{\w+\}\}", source):
-        raise ValueError(f"Unfilled wildcards found in source: {unfilled_wildcards}")
 
     for callable_slot in re.finditer(r"\{\{\w+\((\w+,?)+\)\}\}", source):
         callable_slot_text = callable_slot.group()
@@ -1510,7 +1497,25 @@ def format_template(source: str, template_match: NamedTuple, **callables) -> str
         )
         source = source.replace(callable_slot_text, callable_result)
 
-    return source
+    codes = {}
+    for name, value in template_match_asdict.items():
+        slot = "{{" + name + "}}"
+        code = unparse(value)
+        if slot in source and isinstance(value, ast.expr) and _needs_parentheses(source, slot, code):
+            code = f"({code})"
+
+        codes[name] = code
+
+    # It's ok that some of the template_match isn't used, just like str.format()
+    # may not use all of the arguments.
+
+    if unfilled_wildcards := [
+        slot for slot in re.findall(r"\{\{\w+\}\}", source) if slot.strip("{}") not in codes
+    ]:
+        raise ValueError(f"Unfilled wildcards found in source: {unfilled_wildcards}")
+
+    # All slots are filled at once: code that is put in may contain the text of another slot
+    return re.sub(r"\{\{(\w+)\}\}", lambda slot: codes[slot.group(1)], source)
 
 
 @functools.lru_cache(maxsize=1)
